@@ -221,34 +221,43 @@ example : (Matcher.pats [⟨false, ⟨[cSTAR], port22⟩⟩, ⟨true, ⟨[97, cS
 /-! ## 3. decisions -/
 
 theorem checkAddrGo_ok_iff (key : Nat) (a : Addr) (ls : List Entry) (want : List Nat) :
-    checkAddrGo key a ls want = .ok ↔ ∃ l ∈ ls, l.matcher.matches a = true ∧ l.key = key := by
+    checkAddrGo key a ls want = .ok ↔
+      ∃ l ∈ ls, l.cert = false ∧ l.matcher.matches a = true ∧ l.key = key := by
   induction ls generalizing want with
   | nil => simp [checkAddrGo]
   | cons l ls ih =>
     simp only [checkAddrGo]
-    by_cases hm : l.matcher.matches a = true
-    · simp only [hm, Bool.not_true, Bool.false_eq_true, if_false]
+    by_cases hskip : (l.cert || !l.matcher.matches a) = true
+    · simp only [hskip, if_true, ih, List.mem_cons]
+      constructor
+      · rintro ⟨x, hx, h⟩; exact ⟨x, Or.inr hx, h⟩
+      · rintro ⟨x, rfl | hx, h1, h2, h3⟩
+        · simp [h1, h2] at hskip
+        · exact ⟨x, hx, h1, h2, h3⟩
+    · have hs : (l.cert || !l.matcher.matches a) = false := by simpa using hskip
+      have hc : l.cert = false := by
+        cases h : l.cert <;> simp [h] at hs ⊢
+      have hmm : l.matcher.matches a = true := by
+        cases h : l.matcher.matches a <;> simp [h, hc] at hs ⊢
+      simp only [hs, Bool.false_eq_true, if_false]
       by_cases hk : l.key = key
-      · simp [hk, hm]
+      · simp only [hk, beq_self_eq_true, if_true, true_iff]
+        exact ⟨l, by simp, hc, hmm, hk⟩
       · have : (l.key == key) = false := by simpa using hk
         simp only [this, Bool.false_eq_true, if_false, ih, List.mem_cons]
         constructor
         · rintro ⟨x, hx, h⟩; exact ⟨x, Or.inr hx, h⟩
-        · rintro ⟨x, rfl | hx, h1, h2⟩
-          · exact absurd h2 hk
-          · exact ⟨x, hx, h1, h2⟩
-    · have hm' : l.matcher.matches a = false := by simpa using hm
-      simp only [hm', Bool.not_false, if_true, ih, List.mem_cons]
-      constructor
-      · rintro ⟨x, hx, h⟩; exact ⟨x, Or.inr hx, h⟩
-      · rintro ⟨x, rfl | hx, h1, h2⟩
-        · simp [hm'] at h1
-        · exact ⟨x, hx, h1, h2⟩
+        · rintro ⟨x, rfl | hx, h1, h2, h3⟩
+          · exact absurd h3 hk
+          · exact ⟨x, hx, h1, h2, h3⟩
+
+/-- a line takes part in plain-key lookup iff it has no `@cert-authority` marker and its matcher matches -/
+def hostLine (a : Addr) (l : Entry) : Bool := !l.cert && l.matcher.matches a
 
 theorem checkAddrGo_keyErr_iff (key : Nat) (a : Addr) (ls : List Entry) (want w : List Nat) :
     checkAddrGo key a ls want = .keyErr w ↔
-      (∀ l ∈ ls, l.matcher.matches a = true → l.key ≠ key) ∧
-      w = want ++ (ls.filter (fun l => l.matcher.matches a)).map (·.lineNo) := by
+      (∀ l ∈ ls, hostLine a l = true → l.key ≠ key) ∧
+      w = want ++ (ls.filter (hostLine a)).map (·.lineNo) := by
   induction ls generalizing want with
   | nil =>
     simp only [checkAddrGo, Verdict.keyErr.injEq]
@@ -257,16 +266,32 @@ theorem checkAddrGo_keyErr_iff (key : Nat) (a : Addr) (ls : List Entry) (want w 
     · intro h; simp [h.2]
   | cons l ls ih =>
     simp only [checkAddrGo]
-    by_cases hm : l.matcher.matches a = true
-    · simp only [hm, Bool.not_true, Bool.false_eq_true, if_false]
+    by_cases hskip : (l.cert || !l.matcher.matches a) = true
+    · have hh : hostLine a l = false := by
+        simp only [hostLine]
+        cases h1 : l.cert <;> cases h2 : l.matcher.matches a <;> simp [h1, h2] at hskip ⊢
+      simp only [hskip, if_true, ih, List.mem_cons, List.filter_cons, hh, Bool.false_eq_true, if_false]
+      constructor
+      · rintro ⟨h1, h2⟩
+        refine ⟨?_, h2⟩
+        rintro x (rfl | hx) hxm
+        · simp [hh] at hxm
+        · exact h1 x hx hxm
+      · rintro ⟨h1, h2⟩
+        exact ⟨fun x hx => h1 x (Or.inr hx), h2⟩
+    · have hs : (l.cert || !l.matcher.matches a) = false := by simpa using hskip
+      have hh : hostLine a l = true := by
+        simp only [hostLine]
+        cases h1 : l.cert <;> cases h2 : l.matcher.matches a <;> simp [h1, h2] at hs ⊢
+      simp only [hs, Bool.false_eq_true, if_false]
       by_cases hk : l.key = key
       · simp only [hk, beq_self_eq_true, if_true]
         constructor
         · intro h; cases h
         · rintro ⟨h, _⟩
-          exact absurd hk (h l (by simp) hm)
+          exact absurd hk (h l (by simp) hh)
       · have : (l.key == key) = false := by simpa using hk
-        simp only [this, Bool.false_eq_true, if_false, ih, List.mem_cons, List.filter_cons, hm, if_true,
+        simp only [this, Bool.false_eq_true, if_false, ih, List.mem_cons, List.filter_cons, hh, if_true,
           List.map_cons, List.append_assoc, List.singleton_append]
         constructor
         · rintro ⟨h1, h2⟩
@@ -276,17 +301,6 @@ theorem checkAddrGo_keyErr_iff (key : Nat) (a : Addr) (ls : List Entry) (want w 
           · exact h1 x hx hxm
         · rintro ⟨h1, h2⟩
           exact ⟨fun x hx => h1 x (Or.inr hx), h2⟩
-    · have hm' : l.matcher.matches a = false := by simpa using hm
-      simp only [hm', Bool.not_false, if_true, ih, List.mem_cons, List.filter_cons, Bool.false_eq_true,
-        if_false]
-      constructor
-      · rintro ⟨h1, h2⟩
-        refine ⟨?_, h2⟩
-        rintro x (rfl | hx) hxm
-        · simp [hm'] at hxm
-        · exact h1 x hx hxm
-      · rintro ⟨h1, h2⟩
-        exact ⟨fun x hx => h1 x (Or.inr hx), h2⟩
 
 theorem checkAddrGo_cases (key : Nat) (a : Addr) (ls : List Entry) (want : List Nat) :
     checkAddrGo key a ls want = .ok ∨ ∃ w, checkAddrGo key a ls want = .keyErr w := by
@@ -313,13 +327,13 @@ theorem revokedLine_none_iff (db : DB) (key : Nat) :
   simp [DB.revokedLine, List.find?_eq_none]
 
 /-- **decision** (plain keys): the callback accepts iff the key is not `@revoked`, the addresses are
-    well-formed, and SOME line (any marker other than `@revoked`) whose matcher matches the effective
-    address lists exactly that key. -/
+    well-formed, and some line WITHOUT a marker whose matcher matches the effective address (host names
+    compared lower-cased, see `HostPattern.matches`) lists exactly that key. -/
 theorem decision (db : DB) (now : Int) (address remote : Bytes) (key : Nat) :
     db.checkHostKey now address remote (.plain key) = .ok ↔
       (∀ e ∈ db.revoked, e.1 ≠ key) ∧
       ∃ a, effectiveAddr address remote = some a ∧
-        ∃ l ∈ db.lines, l.matcher.matches a = true ∧ l.key = key := by
+        ∃ l ∈ db.lines, l.cert = false ∧ l.matcher.matches a = true ∧ l.key = key := by
   simp only [DB.checkHostKey, DB.check, ← revokedLine_none_iff, effectiveAddr]
   cases hr : db.revokedLine key with
   | some n => simp
@@ -347,13 +361,14 @@ theorem revoked_first (db : DB) (now : Int) (address remote : Bytes) (key n : Na
   simp [DB.checkHostKey, DB.check, h]
 
 /-- **keyerror_lists_exactly_matching_lines**: when the answer is a KeyError its `Want` list is exactly
-    the line numbers of ALL lines whose matcher matches the effective address, in file order, and none of
+    the line numbers of ALL lines without `@cert-authority` marker whose matcher matches the effective
+    address, in file order, and none of
     those lines lists the presented key. -/
 theorem keyerror_lists_exactly_matching_lines (db : DB) (now : Int) (address remote : Bytes) (key : Nat)
     (w : List Nat) (h : db.checkHostKey now address remote (.plain key) = .keyErr w) :
     ∃ a, effectiveAddr address remote = some a ∧
-      w = (db.lines.filter (fun l => l.matcher.matches a)).map (·.lineNo) ∧
-      ∀ l ∈ db.lines, l.matcher.matches a = true → l.key ≠ key := by
+      w = (db.lines.filter (hostLine a)).map (·.lineNo) ∧
+      ∀ l ∈ db.lines, hostLine a l = true → l.key ≠ key := by
   simp only [DB.checkHostKey, DB.check, effectiveAddr] at *
   cases hr : db.revokedLine key with
   | some n => simp [hr] at h
@@ -575,12 +590,13 @@ theorem b64_roundtrip (x : Bytes) : b64Decode (b64Encode x) = some x := by
   rw [this, b64DecodeCore_encode]
 
 /-- **hash_matches**: the entry written by `HashHostname(host)` (any salt) parses as a hashed matcher,
-    and that matcher accepts an address iff HMAC-SHA1(salt, Normalize(addr)) = HMAC-SHA1(salt, host) —
-    in particular it accepts every address whose normal form is `host`. -/
+    and that matcher accepts an address iff HMAC-SHA1(salt, Normalize(addr with lower-cased host)) =
+    HMAC-SHA1(salt, host) — in particular it accepts every address whose lower-cased normal form is `host`. -/
 theorem hash_matches (salt host : Bytes) :
     ∃ m, newHashedHost (hashHostname salt host) = some m ∧
-      (∀ a : Addr, m.matches a = (hashHost (normalize a.str) salt == hashHost host salt)) ∧
-      (∀ a : Addr, normalize a.str = host → m.matches a = true) := by
+      (∀ a : Addr, m.matches a =
+        (hashHost (normalize (Addr.str ⟨lower a.host, a.port⟩)) salt == hashHost host salt)) ∧
+      (∀ a : Addr, normalize (Addr.str ⟨lower a.host, a.port⟩) = host → m.matches a = true) := by
   have hs := b64Encode_chars salt
   have hh := b64Encode_chars (hashHost host salt)
   have hsplit : splitBy cPIPE (hashHostname salt host) =
@@ -599,6 +615,31 @@ theorem hash_matches (salt host : Bytes) :
     simp [Matcher.matches, ha]
 
 /-! ## 5. the tokenizer and `Line` -/
+
+theorem lowerByte_toNat (c : UInt8) :
+    (lowerByte c).toNat = if 65 ≤ c.toNat ∧ c.toNat ≤ 90 then c.toNat + 32 else c.toNat := by
+  unfold lowerByte
+  split
+  · rename_i h
+    rw [UInt8.toNat_add]
+    have : (32 : UInt8).toNat = 32 := rfl
+    rw [this]; omega
+  · rfl
+
+theorem lowerByte_star (c : UInt8) (h : lowerByte c = cSTAR) : c = cSTAR := by
+  have h1 := congrArg UInt8.toNat h
+  rw [lowerByte_toNat] at h1
+  have : cSTAR.toNat = 42 := rfl
+  apply UInt8.toNat_inj.1
+  split at h1 <;> omega
+
+theorem lowerByte_qm (c : UInt8) (h : lowerByte c = cQM) : c = cQM := by
+  have h1 := congrArg UInt8.toNat h
+  rw [lowerByte_toNat] at h1
+  have : cQM.toNat = 63 := rfl
+  apply UInt8.toNat_inj.1
+  split at h1 <;> omega
+
 
 theorem trimmed_ends (a m c : Bytes) (ha : NoBlank a) (hane : a ≠ []) (hc : NoBlank c) (hcne : c ≠ []) :
     Trimmed (a ++ m ++ c) := by
@@ -924,13 +965,17 @@ theorem line_matches_own_host (kt : KeyTab) (hps : List (Bytes × Bytes)) (ktype
   have hmatch : entry.matcher.matches ⟨hp.1, hp.2⟩ = true := by
     rw [show entry.matcher = .pats (hps.map fun hp => ⟨false, ⟨hp.1, hp.2⟩⟩) from rfl, negation_semantics]
     refine ⟨⟨⟨false, ⟨hp.1, hp.2⟩⟩, List.mem_map.2 ⟨hp, hhp, rfl⟩, rfl, ?_⟩, ?_⟩
-    · have hlit := (wildcard_literal hp.1 hp.1 (fun c hc => ⟨(h1 c hc).2.2.2.2.2.2.2.1, (h1 c hc).2.2.2.2.2.2.2.2.1⟩)).2 rfl
+    · have hlit := (wildcard_literal (lower hp.1) (lower hp.1) (by
+        intro c hc
+        obtain ⟨c', hc', rfl⟩ := List.mem_map.1 hc
+        exact ⟨fun h => (h1 c' hc').2.2.2.2.2.2.2.1 (lowerByte_star c' h),
+          fun h => (h1 c' hc').2.2.2.2.2.2.2.2.1 (lowerByte_qm c' h)⟩)).2 rfl
       simp [HostPattern.matches, hlit]
     · intro q hq hneg
       obtain ⟨x, _, rfl⟩ := List.mem_map.1 hq
       cases hneg
   rw [decision]
-  refine ⟨by simp, ⟨hp.1, hp.2⟩, ?_, entry, by simp, hmatch, rfl⟩
+  refine ⟨by simp, ⟨hp.1, hp.2⟩, ?_, entry, by simp, rfl, hmatch, rfl⟩
   unfold effectiveAddr
   obtain ⟨rh, rp⟩ := rhp
   simp only [hrhp, haddrne, Bool.false_eq_true, if_false]
@@ -941,99 +986,47 @@ theorem line_matches_own_host (kt : KeyTab) (hps : List (Bytes × Bytes)) (ktype
 example : Safe [104, 111, 115, 116] ∧ Safe [50, 50, 50, 50] := by
   constructor <;> (intro c hc; revert c; decide)
 
-/-! ## 6. where the code's decision is not the property's (known findings) -/
+/-! ## 6. marker filter and case-insensitivity (formerly known findings, fixed in the code) -/
 
-/-- **O10(a), general**: ANY `@cert-authority` line that matches the host and lists key `k` makes the
-    callback accept `k` presented as a PLAIN host key (not revoked, addresses well-formed). -/
-theorem ca_line_accepted_as_host_key (db : DB) (now : Int) (address remote : Bytes) (key : Nat) (a : Addr)
-    (hrev : ∀ e ∈ db.revoked, e.1 ≠ key) (ha : effectiveAddr address remote = some a)
-    (l : Entry) (hl : l ∈ db.lines) (_hcert : l.cert = true) (hm : l.matcher.matches a = true)
-    (hk : l.key = key) :
-    db.checkHostKey now address remote (.plain key) = .ok :=
-  (decision db now address remote key).2 ⟨hrev, a, ha, l, hl, hm, hk⟩
-
-theorem checkAddrP_ok_iff (key : Nat) (a : Addr) (ls : List Entry) (want : List Nat) :
-    checkAddrP key a ls want = .ok ↔
-      ∃ l ∈ ls, l.cert = false ∧ l.matcher.matchesP a = true ∧ l.key = key := by
-  induction ls generalizing want with
-  | nil => simp [checkAddrP]
-  | cons l ls ih =>
-    simp only [checkAddrP]
-    by_cases hskip : (l.cert || !l.matcher.matchesP a) = true
-    · simp only [hskip, if_true, ih, List.mem_cons]
-      constructor
-      · rintro ⟨x, hx, h⟩; exact ⟨x, Or.inr hx, h⟩
-      · rintro ⟨x, rfl | hx, h1, h2, h3⟩
-        · simp [h1, h2] at hskip
-        · exact ⟨x, hx, h1, h2, h3⟩
-    · have hs : (l.cert || !l.matcher.matchesP a) = false := by simpa using hskip
-      have hc : l.cert = false := by
-        cases h : l.cert <;> simp [h] at hs ⊢
-      have hmm : l.matcher.matchesP a = true := by
-        cases h : l.matcher.matchesP a <;> simp [h, hc] at hs ⊢
-      simp only [hs, Bool.false_eq_true, if_false]
-      by_cases hk : l.key = key
-      · simp only [hk, beq_self_eq_true, if_true, true_iff]
-        exact ⟨l, by simp, hc, hmm, hk⟩
-      · have : (l.key == key) = false := by simpa using hk
-        simp only [this, Bool.false_eq_true, if_false, ih, List.mem_cons]
-        constructor
-        · rintro ⟨x, hx, h⟩; exact ⟨x, Or.inr hx, h⟩
-        · rintro ⟨x, rfl | hx, h1, h2, h3⟩
-          · exact absurd h3 hk
-          · exact ⟨x, hx, h1, h2, h3⟩
-
-/-- the property's reading accepts a plain key only through a line WITHOUT the `@cert-authority` marker -/
-theorem checkP_ok_needs_unmarked_line (db : DB) (address remote : Bytes) (key : Nat)
-    (h : db.checkP address remote key = .ok) :
+/-- a `@cert-authority` line never makes a PLAIN key acceptable: acceptance always comes from an
+    unmarked line (corollary of `decision`) -/
+theorem ca_line_is_not_a_host_key_line (db : DB) (now : Int) (address remote : Bytes) (key : Nat)
+    (h : db.checkHostKey now address remote (.plain key) = .ok) :
     ∃ l ∈ db.lines, l.cert = false ∧ l.key = key := by
-  simp only [DB.checkP] at h
-  split at h
-  · cases h
-  · split at h
-    · cases h
-    · split at h
-      · obtain ⟨l, hl, hc, _, hk⟩ := (checkAddrP_ok_iff _ _ _ _).1 h; exact ⟨l, hl, hc, hk⟩
-      · split at h
-        · cases h
-        · obtain ⟨l, hl, hc, _, hk⟩ := (checkAddrP_ok_iff _ _ _ _).1 h; exact ⟨l, hl, hc, hk⟩
+  obtain ⟨_, a, _, l, hl, hc, _, hk⟩ := (decision db now address remote key).1 h
+  exact ⟨l, hl, hc, hk⟩
 
-/-- **O10(a), witness**: file `@cert-authority h <K>`; `K` presented as plain host key of `h:22` — the code
-    accepts, the property's reading answers "unknown key" -/
-theorem marker_gap :
+/-- regression example (old code answered `.ok`): file `@cert-authority h <K>`, `K` presented as plain key -/
+theorem marker_regression :
     let db : DB := ⟨[], [⟨1, true, .pats [⟨false, ⟨[104], port22⟩⟩], 7⟩]⟩
-    db.checkHostKey 0 [104, 58, 50, 50] [104, 58, 50, 50] (.plain 7) = .ok ∧
-    db.checkP [104, 58, 50, 50] [104, 58, 50, 50] 7 = .keyErr [] := by
+    db.checkHostKey 0 [104, 58, 50, 50] [104, 58, 50, 50] (.plain 7) = .keyErr [] := by
   decide
 
-theorem lower_id (w : Bytes) (h : ∀ c ∈ w, ¬ (65 ≤ c.toNat ∧ c.toNat ≤ 90)) : lower w = w := by
-  induction w with
-  | nil => rfl
-  | cons c cs ih =>
-    have hc := h c (by simp)
-    simp only [lower, List.map_cons, lowerByte, hc, if_false, List.cons.injEq, true_and]
-    exact ih (fun x hx => h x (List.mem_cons_of_mem _ hx))
+theorem lowerByte_idem (c : UInt8) : lowerByte (lowerByte c) = lowerByte c := by
+  apply UInt8.toNat_inj.1
+  rw [lowerByte_toNat (lowerByte c), lowerByte_toNat c]
+  by_cases h : 65 ≤ c.toNat ∧ c.toNat ≤ 90
+  · have h2 : ¬ (65 ≤ c.toNat + 32 ∧ c.toNat + 32 ≤ 90) := by omega
+    rw [if_pos h, if_neg h2]
+  · rw [if_neg h, if_neg h]
 
-/-- no upper-case letter in a pattern list and in the host name: the case-insensitive reading and the
-    code agree — the divergence O10(b) needs an upper-case letter somewhere -/
-theorem matchesCI_eq_of_lower (m : Bool) (ps : List HostPattern) (a : Addr)
-    (hp : ∀ p ∈ ps, ∀ c ∈ p.addr.host, ¬ (65 ≤ c.toNat ∧ c.toNat ≤ 90))
-    (ha : ∀ c ∈ a.host, ¬ (65 ≤ c.toNat ∧ c.toNat ≤ 90)) :
-    matchPatternsCI m ps a = matchPatternsGo m ps a := by
-  induction ps generalizing m with
-  | nil => rfl
-  | cons p ps ih =>
-    have e : p.matchesCI a = p.matches a := by
-      simp only [HostPattern.matchesCI, HostPattern.matches, lower_id _ (hp p (by simp)), lower_id _ ha]
-    simp only [matchPatternsCI, matchPatternsGo, e, ih _ (fun q hq => hp q (List.mem_cons_of_mem _ hq))]
+theorem lower_idem (w : Bytes) : lower (lower w) = lower w := by
+  simp [lower, List.map_map, Function.comp_def, lowerByte_idem]
 
-/-- **O10(b), witnesses**: pattern `H` vs host `h` (code: no match; OpenSSH: match), and the negated form
-    `*,!h` queried as `H` (code: match, i.e. accepted; OpenSSH: excluded) -/
-theorem case_gap :
-    (Matcher.pats [⟨false, ⟨[72], port22⟩⟩]).matches ⟨[104], port22⟩ = false ∧
-    (Matcher.pats [⟨false, ⟨[72], port22⟩⟩]).matchesP ⟨[104], port22⟩ = true ∧
-    (Matcher.pats [⟨false, ⟨[cSTAR], port22⟩⟩, ⟨true, ⟨[104], port22⟩⟩]).matches ⟨[72], port22⟩ = true ∧
-    (Matcher.pats [⟨false, ⟨[cSTAR], port22⟩⟩, ⟨true, ⟨[104], port22⟩⟩]).matchesP ⟨[72], port22⟩ = false := by
+/-- **case-insensitivity**: a pattern list's verdict depends on the host name and on the pattern hosts
+    only through their lower-cased forms -/
+theorem matches_lower_host (p : HostPattern) (a : Addr) :
+    p.matches ⟨lower a.host, a.port⟩ = p.matches a := by
+  simp [HostPattern.matches, lower_idem]
+
+theorem matches_lower_pattern (p : HostPattern) (a : Addr) :
+    HostPattern.matches ⟨p.negate, ⟨lower p.addr.host, p.addr.port⟩⟩ a = p.matches a := by
+  simp [HostPattern.matches, lower_idem]
+
+/-- regression examples (old code: false / true): pattern `H` matches host `h`; `*,!h` excludes `H` -/
+theorem case_regression :
+    (Matcher.pats [⟨false, ⟨[72], port22⟩⟩]).matches ⟨[104], port22⟩ = true ∧
+    (Matcher.pats [⟨false, ⟨[cSTAR], port22⟩⟩, ⟨true, ⟨[104], port22⟩⟩]).matches ⟨[72], port22⟩ = false := by
   decide
 
 end XC.C42
